@@ -17,7 +17,7 @@ Theorem ifc67_vs_iapws97_steam_density_partial : forall t p : R, steam_region t 
 Proof. exact steam_density_agrees_on_region. Qed.
 Print Assumptions ifc67_vs_iapws97_steam_density_partial.
 
-(** PARTIAL: |u67 - u97| / u97 <= 0.6 % for steam on 550..800 degC x 5..10 MPa and 650..800 degC x 10..20 MPa *)
+(** PARTIAL: |u67 - u97| / u97 <= 0.6 % for steam on 650..800 degC x 5..10 MPa *)
 Theorem ifc67_vs_iapws97_steam_energy_partial : forall t p : R, steam_energy_region t p -> relu_stm t p <= 6 / 1000.
 Proof. exact steam_energy_agrees_on_region. Qed.
 Print Assumptions ifc67_vs_iapws97_steam_energy_partial.
